@@ -680,6 +680,20 @@ class Dataset(AbstractDataset, dict, OpMixin, GetSetDelAttrMixin):
 
         ax = self.axes[axis]
 
+        # nothing to take from: every requested label is missing (as in DimArray.reindex_axis)
+        if ax.size == 0 and np.size(values) > 0:
+            if raise_error:
+                raise IndexError("Some values where not found in the axis: {}".format(values))
+            dataset = self.__class__()
+            dataset.axes = [a.copy() if a.name != ax.name else Axis(values, ax.name, tol=ax.tol, **ax.attrs) for a in self.axes]
+            for k in self.keys():
+                item = self[k]
+                if ax.name in item.dims:
+                    item = item.reindex_axis(values, axis=ax.name, fill_value=fill_value, method=method)
+                dataset[k] = item
+            dataset.attrs.update(self.attrs)
+            return dataset
+
         # take axis, do not raise error (same neighbour as DimArray.reindex_axis for method='left' / 'right')
         indices = locate_many(ax.values, values, side=method or 'left')
         dataset = self.take_axis(indices, axis=axis, indexing='position')
